@@ -117,6 +117,7 @@ var kernelList = []kernelSpec{
 	{"x/ovm/types", "ProposalVotePayload", "Validate"},
 	{"x/ovm/types", "", "NewVote"},
 	{"x/ovm/types", "KeyVault", "SetLeader"},
+	{"x/house/types", "", "NewWithdrawal"},
 }
 
 // structs that only occur as parameters
@@ -125,7 +126,7 @@ var kernelList = []kernelSpec{
 // already passed through PrepareBetObject (model: wager_prepare, tied by the correspondence runs)
 var assumeOK = []kernelSpec{{"x/mint/types", "", "validateMintDenom"}, {"x/bet/types", "MsgWager", "ValidateBasic"}}
 
-var extraStructs = []kernelSpec{{"x/ovm/types", "ProposalVotePayload", ""}, {"x/ovm/types", "MsgVotePubkeysChangeRequest", ""}, {"x/bet/types", "Constraints", ""}, {"x/ovm/types", "PubkeysChangeProposalPayload", ""}, {"x/mint/types", "Phase", ""}, {"x/ovm/types", "Vote", ""}, {"x/market/types", "Odds", ""}, {"x/bet/types", "BetFulfillment", ""}, {"x/bet/types", "UID2ID", ""}}
+var extraStructs = []kernelSpec{{"x/ovm/types", "ProposalVotePayload", ""}, {"x/ovm/types", "MsgVotePubkeysChangeRequest", ""}, {"x/bet/types", "Constraints", ""}, {"x/ovm/types", "PubkeysChangeProposalPayload", ""}, {"x/mint/types", "Phase", ""}, {"x/ovm/types", "Vote", ""}, {"x/market/types", "Odds", ""}, {"x/bet/types", "BetFulfillment", ""}, {"x/bet/types", "UID2ID", ""}, {"x/house/types", "Withdrawal", ""}}
 
 // A stateful kernel: a function that reads and writes module state through a keeper.  The state it touches is a record (emitted as
 // S_<name>) and every keeper / context method it may call is mapped to an operation on that record; anything else fails the translation.
@@ -280,6 +281,14 @@ var statefulList = []statefulSpec{{
 	ops: map[string]stateOp{"GetOrderBookParticipation": {kind: "findk", field: []string{"Parts", "Index"}, args: []string{"marketUID"}},
 		"GetExposureByOrderBookAndParticipationIndex": {kind: "getok", field: []string{"PartExpos"}, args: []string{"marketUID", "participationIndex"}}},
 	fields: []stateField{{"Parts", "list G_OrderBookParticipation"}, {"PartExpos", "list G_ParticipationExposure"}},
+}, {
+	// x/house/keeper/withdrawal.go Withdraw: the records of an executed withdrawal (the order-book side is the order-book keeper's
+	// WithdrawOrderBookParticipation, represented here by its verdict only)
+	recv: "Keeper", pkg: "x/house/keeper", name: "Withdraw", state: "hwd", keeperPkg: "x/house/keeper", returns: "both",
+	idParams: []string{"creator", "depositorAddr", "marketUID"},
+	ops: map[string]stateOp{"orderbookKeeper.WithdrawOrderBookParticipation": {kind: "oracle", field: []string{"ObOK"}},
+		"SetWithdrawal": {kind: "append", field: []string{"Withdrawals"}}, "SetDeposit": {kind: "set", field: []string{"Deposit"}}},
+	fields: []stateField{{"ObOK", "bool"}, {"Withdrawals", "list G_Withdrawal"}, {"Deposit", "G_Deposit"}},
 }, {
 	// x/subaccount/keeper/hooks.go: what the settlement of a participation books on the subaccount that made the deposit.  State: the
 	// account summary stored for the address and whether there is one, whether the owner record exists, the two bank balances
@@ -1370,6 +1379,9 @@ func (c *fctx) ret(s *ast.ReturnStmt) string {
 					if c.state.returns == "value" {
 						return fmt.Sprintf("Some %s", c.expr(s.Results[0])) // a read-only function: the value is the result
 					}
+					if c.state.returns == "both" {
+						return fmt.Sprintf("Some (g_st, %s)", c.expr(s.Results[0])) // the new state and the value
+					}
 					return "Some g_st" // a message handler: the response is not modelled, the state is the result
 				}
 				return "None"
@@ -2052,6 +2064,27 @@ func (c *fctx) stmts(list []ast.Stmt) string {
 							okB := c.withErr(id.Name, true, rest)
 							errB := c.withErr(id.Name, false, rest)
 							return c.moveOp(op, args, okB, errB)
+						}
+					}
+				}
+			}
+		}
+		// err := k.Op(...) where Op belongs to another module and is represented only by its verdict (a boolean field of the state: it
+		// succeeds or returns an error; what it does to that module's state is not part of this function's state)
+		if len(s.Lhs) == 1 && len(s.Rhs) == 1 {
+			if call, ok := s.Rhs[0].(*ast.CallExpr); ok {
+				if f, ok := call.Fun.(*ast.SelectorExpr); ok {
+					if op, ok := c.stateOpOf(f); ok && op.kind == "oracle" {
+						if id, ok := s.Lhs[0].(*ast.Ident); ok {
+							if c.nilErr == nil {
+								c.nilErr = map[string]bool{}
+							}
+							if c.nonNil == nil {
+								c.nonNil = map[string]bool{}
+							}
+							okB := c.withErr(id.Name, true, rest)
+							errB := c.withErr(id.Name, false, rest)
+							return fmt.Sprintf("(if negb (S_%s_%s g_st) then %s else %s)", c.state.state, op.field[0], errB, okB)
 						}
 					}
 				}
